@@ -322,6 +322,32 @@ func c03Case(c *mon.Ctx, aText, bText string, prof gen.Profile, exhaustiveSubset
 		masks = append(masks, 1+c.R.Intn(allMask))
 		masks = append(masks, 1<<c.R.Intn(n))
 	}
+	if n >= 2 && c.R.Chance(0.3) {
+		// the hunks in another order (a hand-edited patch): every index and context line then refers to the
+		// document as left by the hunks written before it, in THAT order; jd must agree with the reference
+		perm := make([]int, n)
+		for k := range perm {
+			perm[k] = k
+		}
+		gen.Shuffle(c.R, perm)
+		mkPerm := func() jd.Diff {
+			full := ReadJ(aText).Diff(ReadJ(bText))
+			var out jd.Diff
+			for _, k := range perm {
+				if k < len(full) {
+					out = append(out, full[k])
+				}
+			}
+			return out
+		}
+		c.Feature("permuted_hunk_order")
+		reason, knownID, extra := judgePatch(c, mkPerm(), aText, ref.List, c.R.Chance(0.5))
+		if reason != "" && knownID == "" {
+			extra["hunk_order"] = fmt.Sprint(perm)
+			c.Violation(reason, extra)
+			return
+		}
+	}
 	for _, mask := range masks {
 		// fresh diff values for every leg
 		d := subsetOf(ReadJ(aText).Diff(ReadJ(bText)), mask)
@@ -384,7 +410,7 @@ func init() {
 			"are applied, in memory or after a render/re-read, to targets a, b, a perturbed exactly at the edited array (shift, neighbour changed, removed element changed, truncated, emptied) and a randomly perturbed at any depth; one stratum uses numbers that need 16-17 significant digits next to their 15-digit roundings; " +
 			"every Patch event is compared with the reference hunk interpreter (apply/reject must agree, results must be equal); non-trivial = target differs from a and some hunk has element context; distinct = distinct (a, b, subset, target)",
 		Floors: map[string]int{"patch_events": 100000, "both_apply": 20000, "both_reject": 20000, "edited_array_depth>=1": 5000, "edited_array_depth>=2": 2000,
-			"reject:before context": 500, "reject:after context": 500, "reject:remove": 500, "reject:index": 100, "proper_subset": 10000, "patched_via_text": 10000, "patched_in_memory": 10000, "long_mantissa_pairs": 3000},
+			"reject:before context": 500, "reject:after context": 500, "reject:remove": 500, "reject:index": 100, "proper_subset": 10000, "patched_via_text": 10000, "patched_in_memory": 10000, "long_mantissa_pairs": 3000, "several_context_lines": 3000, "permuted_hunk_order": 3000},
 		Assumptions: []string{
 			"the reference interpreter (ref.RefPatch) encodes the documented hunk semantics: strict key hunks expect the old value or absence; list hunks use the index in the current document, before/after context equal to the adjacent elements or the array boundary, every removed value equal to the element then at the index",
 			"only hunks jd itself generated (and sub-sequences of them) are used, as the property states; hand-written shapes belong to C02/C13",
@@ -412,6 +438,76 @@ func init() {
 			w := i % 3
 			c.Feature("long_mantissa_pairs")
 			c03Case(c, ref.ToJSON(gen.Wrap(arrA, w)), ref.ToJSON(gen.Wrap(arrB, w)), prof, false)
+		},
+	})
+	p.Strata = append(p.Strata, mon.Stratum{
+		Name: "several-context-lines",
+		N:    qt(4000, 200000),
+		Run: func(c *mon.Ctx, i int) {
+			// hunks with two before- or after-context lines (legal in the format, written by hand or by other
+			// tools): each line is compared with the element at its own distance from the edit
+			r := c.R
+			n := r.Range(4, 8)
+			arr := make([]any, n)
+			for k := range arr {
+				arr[k] = float64(k + 1)
+				if r.Chance(0.2) {
+					arr[k] = gen.Pick(r, []any{"s", true, -1.0})
+				}
+			}
+			at := r.Range(2, n-2)
+			nb, na := r.Range(1, 2), r.Range(1, 2)
+			if at-nb < 0 {
+				nb = at
+			}
+			if at+1+na > n {
+				na = n - at - 1
+			}
+			e := jd.DiffElement{Path: jd.Path{jd.PathIndex(at)}, Remove: []jd.JsonNode{Node(arr[at])}, Add: []jd.JsonNode{Node("new")}}
+			for k := at - nb; k < at; k++ {
+				e.Before = append(e.Before, Node(arr[k]))
+			}
+			for k := at + 1; k <= at+na; k++ {
+				e.After = append(e.After, Node(arr[k]))
+			}
+			w := i % 3
+			if w > 0 {
+				e.Path = append(jd.Path{jd.PathKey("k")}, e.Path...)
+			}
+			wrap := func(l []any) any {
+				if w > 0 {
+					return map[string]any{"k": l, "z": 1.0}
+				}
+				return l
+			}
+			target := append([]any{}, arr...)
+			kind := "a"
+			switch r.Intn(4) {
+			case 1:
+				if at-nb >= 0 && nb == 2 {
+					target[at-2], target[at-1] = target[at-1], target[at-2]
+					kind = "before-lines-swapped"
+				}
+			case 2:
+				if na == 2 {
+					target[at+1], target[at+2] = target[at+2], target[at+1]
+					kind = "after-lines-swapped"
+				}
+			case 3:
+				target[at-nb] = "other"
+				kind = "far-before-line-changed"
+			}
+			c.Feature("several_context_lines")
+			c.Feature("target:" + kind)
+			tText := ref.ToJSON(wrap(target))
+			c.Input("target", tText)
+			c.Nontrivial(joinKey("ctx2", tText, fmt.Sprint(at, nb, na, w)))
+			mk := func() jd.Diff { return jd.Diff{e} }
+			c.Input("diff", ref.HunksString(Hunks(mk())))
+			reason, knownID, extra := judgePatch(c, mk(), tText, ref.List, r.Chance(0.5))
+			if reason != "" && knownID == "" {
+				c.Violation(reason, extra)
+			}
 		},
 	})
 	p.Strata = append(p.Strata, mon.Stratum{
